@@ -1,10 +1,28 @@
+"""C01 assess is the joint log density; simulate samples from it (structural clauses, DESIGN §4-C01)."""
 from . import gfi
-EXPLANATION = "GFI-contract algebra for simulate/assess."
+
+EXPLANATION = ("ALG/ROLE/SIB/GUARD rules over the simulate and assess paths of the five GFI implementors, the Simulate/Assess "
+               "handlers, CondTr accessors and merge polarity: every returned score/density/retval/argument term is compared, as a "
+               "normalised symbolic term (linear forms with case splitting on where-conditions), with the GFI contract table.")
+
+
 def handlers(ctx):
-    for h in ("Simulate","Generate","Assess","Update","Regenerate"):
+    for h in ("Simulate", "Assess"):
         gfi.handler_rule(ctx, h)
+
+
 def fns(ctx):
-    for m in ("simulate","generate","assess","update","regenerate"):
+    for m in ("simulate", "assess"):
         gfi.fn_rule(ctx, m)
-RULES = [gfi.dist_simulate, gfi.dist_assess, gfi.dist_generate, gfi.dist_update, gfi.dist_regenerate, gfi.collision_helpers, handlers, fns, gfi.handler_stack_ownership]
-FLOOR = 5
+
+
+def combs(ctx):
+    for m in ("simulate", "assess"):
+        gfi.vmap_rule(ctx, m)
+        gfi.scan_rule(ctx, m)
+        gfi.cond_rule(ctx, m)
+
+
+RULES = [gfi.dist_simulate, gfi.dist_assess, gfi.collision_helpers, handlers, fns, gfi.handler_stack_ownership, combs,
+         gfi.cond_trace_rules, gfi.merge_polarity, gfi.vmap_kwargs_sig]
+FLOOR = 20
